@@ -20,6 +20,7 @@ pub mod c18;
 pub mod c20;
 pub mod c21;
 pub mod c22;
+pub mod c24;
 pub mod c25;
 pub mod c26;
 pub mod c28;
@@ -60,6 +61,7 @@ pub fn all() -> Vec<CheckDef> {
         CheckDef { id: "C20", shards: one, run: c20::run, replay: Some(c20::replay) },
         CheckDef { id: "C21", shards: one, run: c21::run, replay: Some(c21::replay) },
         CheckDef { id: "C22", shards: one, run: c22::run, replay: Some(c22::replay) },
+        CheckDef { id: "C24", shards: one, run: c24::run, replay: Some(c24::replay) },
         CheckDef { id: "C25", shards: one, run: c25::run, replay: Some(c25::replay) },
         CheckDef { id: "C26", shards: one, run: c26::run, replay: Some(c26::replay) },
         CheckDef { id: "C39", shards: one, run: c39::run, replay: Some(c39::replay) },
